@@ -1,6 +1,7 @@
 //! Shared machinery: helper processes, strict minidump decoder, ELF kit,
 //! target program driver, reference models.
 pub mod arena;
+pub mod bytede;
 pub mod dest;
 pub mod dso;
 pub mod dumper;
